@@ -23,7 +23,7 @@ func C06() *engine.Scenario {
 		Level:      "fault_enumeration",
 		MapSched:   true,
 		Setup:      loadKeys,
-		Rule:       "Uploader's signing stage. Each run: a step tree mixing command/wait/input/trigger/group/unknown steps, groups nested to depth 4, 0-2 unknown steps wherever the Author's kind choice puts them (any position, any depth), pipeline env x step env overlaps, all key kinds; the real SignSteps runs with every map range in sched-tape order. Fault (S5): on the crypto.Signer path the signer returns an error on its k-th call, k sched-tape-chosen over the whole tree. Further faults and options: the caller's context is already cancelled, or is cancelled by the k-th signing call; debug signing on, with or without a logger. One run in four an earlier, different WithEnv option precedes the real one: it must be neither signed nor written to. Oracle: unknown step anywhere => error; injected signer error => error; on nil error every command step at every depth carries a signature that verifies, names the key's algorithm, and whose signed_fields is exactly sort(5 mandatory + env::N for every pipeline env N not in the step's env); in all cases a deep dump (go-spew, unexported fields included) of the tree with signatures blanked and of the caller's env map is identical before and after. Fingerprint = (tree shape: kinds by depth, deepest command depth, unknown depth class, fault position, key kind, env overlap class). Non-trivial = a command step at depth >= 2, or an unknown step below the top level, or a fired signer fault.",
+		Rule:       "Uploader's signing stage. Each run: a step tree mixing command/wait/input/trigger/group/unknown steps, groups nested to depth 4, 0-2 unknown steps wherever the Author's kind choice puts them at the top level (Parse turns a group that holds one into an unknown step as a whole), one run in six another one placed in memory inside a group of the parsed tree at any depth, one run in eight a (nested) group without any command step, pipeline env x step env overlaps, all key kinds; the real SignSteps runs with every map range in sched-tape order. Fault (S5): on the crypto.Signer path the signer returns an error on its k-th call, k sched-tape-chosen over the whole tree. Further faults and options: the caller's context is already cancelled, or is cancelled by the k-th signing call; debug signing on, with or without a logger. One run in four an earlier, different WithEnv option precedes the real one: it must be neither signed nor written to. Oracle: unknown step anywhere => error; injected signer error => error; on nil error every command step at every depth carries a signature that verifies, names the key's algorithm, and whose signed_fields is exactly sort(5 mandatory + env::N for every pipeline env N not in the step's env); in all cases a deep dump (go-spew, unexported fields included) of the tree with signatures blanked and of the caller's env map is identical before and after. Fingerprint = (tree shape: kinds by depth, deepest command depth, unknown depth class, fault position, key kind, env overlap class). Non-trivial = a command step at depth >= 2, or an unknown step below the top level, or a fired signer fault.",
 		Real:       []string{"pipeline.Parse", "signature.SignSteps", "signature.Sign", "CommandStepWithInvariants.SignedFields", "signature.Verify", "jwx"},
 		Stub:       []string{"Author", "failing crypto.Signer wrapper (S5)", "map iteration scheduler (zzverifsim)", "go-spew deep dump as observer"},
 		Assume:     []string{"a signing failure on a fault-free tree without unknown steps is not what C06 states (C02 would fail instead): counted as a probe", "which steps are 'of unknown kind' is read from the parsed tree (*pipeline.UnknownStep)"},
@@ -100,7 +100,8 @@ func runC06(c *engine.Ctx) {
 		// triggers and, half the time, a step of unknown kind
 		inner := gen.Seq(gen.Str("wait"), gen.Map().Set("trigger", gen.Str("downstream")))
 		if p.Draw(2, "cfg:commandless-unknown") == 1 {
-			inner.Seq = append(inner.Seq, gen.Map().Set("type", gen.Str("mystery")).Set("x", gen.Int(1)))
+			// (a mapping from which no step kind can be inferred)
+			inner.Seq = append(inner.Seq, gen.Map().Set("mystery_"+gen.Word(p, "cfg:commandless-key"), gen.Int(1)))
 		}
 		g := gen.Map().Set("group", gen.Str("no commands here")).Set("steps", inner)
 		for d := p.Draw(3, "cfg:commandless-depth"); d > 0; d-- {
@@ -124,6 +125,28 @@ func runC06(c *engine.Ctx) {
 		c.Probe("author_document_rejected_by_parse")
 		c.Fingerprint(false, "rejected")
 		return
+	}
+	// Parse never leaves a step of unknown kind INSIDE a group (the whole group then falls back), but a caller
+	// that assembles steps in memory can: one run in six places one in a group of the parsed tree, at any depth
+	if p.Draw(6, "cfg:unknown-in-group") == 5 {
+		var groups []*pipeline.GroupStep
+		var collect func(steps pipeline.Steps)
+		collect = func(steps pipeline.Steps) {
+			for _, s := range steps {
+				if g, ok := s.(*pipeline.GroupStep); ok {
+					groups = append(groups, g)
+					collect(g.Steps)
+				}
+			}
+		}
+		collect(pl.Steps)
+		if len(groups) > 0 {
+			g := groups[p.Draw(len(groups), "cfg:unknown-in-group-which")]
+			at := p.Draw(len(g.Steps)+1, "cfg:unknown-in-group-at")
+			u := &pipeline.UnknownStep{Contents: "placed in memory"}
+			g.Steps = append(g.Steps[:at:at], append(pipeline.Steps{u}, g.Steps[at:]...)...)
+			c.Probe("unknown_step_placed_in_a_group_in_memory")
+		}
 	}
 	st := &treeStats{}
 	treeWalk(pl.Steps, 0, st)
